@@ -22,6 +22,7 @@ Proof.
   - rewrite IHa. exact IHb.
   - destruct c; reflexivity.
   - exact IHb0.
+  - apply andb_false_r.
 Qed.
 
 Lemma fo_true_first s f : fo s f = true -> f = true.
@@ -33,6 +34,7 @@ Proof.
   - pose proof (fo_true_first _ _ H) as Ha. rewrite Ha in H |- *. rewrite (IHa _ _ _ Ha). apply IHb. exact H.
   - destruct c; try discriminate. reflexivity.
   - apply IHb0. exact H.
+  - destruct (n =? 1)%Z; [reflexivity|discriminate].
 Qed.
 
 Lemma fneed_ge s : forall nf, (nf <= fneed s nf)%nat.
@@ -74,6 +76,7 @@ Proof.
   - apply IHb0; cbn [e_brk e_cnt e_ret]; auto.
     + intros Hz. apply Hf. rewrite Hz. reflexivity.
     + intros Hz. apply Hf. rewrite Hz. apply orb_true_r.
+  - destruct (n =? 1)%Z; [|reflexivity]. destruct f; [|reflexivity]. apply Hf. reflexivity.
 Qed.
 
 (** ** the reference, one clock, on control state and work *)
@@ -104,18 +107,19 @@ Section Sim.
 Variable p : stmt.
 Variable m : machine.
 
-Definition good (S : ctrl -> nat -> Prop) (r : ctrl * work) (q : nat * work) : Prop :=
-  fst r <> Stuck /\ snd r = snd q /\ S (fst r) (fst q).
+(** [q] = successor machine configuration (state, objects, wait counter) *)
+Definition good (S : ctrl -> nat -> Z -> Prop) (r : ctrl * work) (q : nat * work * Z) : Prop :=
+  fst r <> Stuck /\ snd r = snd (fst q) /\ S (fst r) (fst (fst q)) (snd q).
 
-Fixpoint sim (j : nat) (c : ctrl) (n : nat) : Prop :=
+Fixpoint sim (j : nat) (c : ctrl) (n : nat) (wc : Z) : Prop :=
   match j with
   | O => True
-  | S j' => forall inp w, good (sim j') (rclock p c inp w) (run_tree inp (tree_at m n) n w)
+  | S j' => forall inp w, good (sim j') (rclock p c inp w) (run_tree inp (tree_at m n) n w wc wc)
   end.
 
-Lemma sim_mono j : forall c n, sim (S j) c n -> sim j c n.
+Lemma sim_mono j : forall c n wc, sim (S j) c n wc -> sim j c n wc.
 Proof.
-  induction j as [|j IH]; intros c n H; [exact I|].
+  induction j as [|j IH]; intros c n wc H; [exact I|].
   intros inp w. destruct (H inp w) as (H1 & H2 & H3). repeat split; auto.
 Qed.
 
@@ -124,18 +128,18 @@ Proof. intros (H1 & H2 & H3). repeat split; auto using sim_mono. Qed.
 
 (** ** specifications of a continuation *)
 Definition fallspec (j : nat) (k : kont) (rest : tree) (fl : bool) (nf : nat) : Prop :=
-  forall f inp w cur, (nf <= f)%nat -> (fl = true -> cur = O) ->
-    good (sim j) (cont f inp k fl w) (run_tree inp rest cur w).
+  forall f inp w cur rc pc, (nf <= f)%nat -> (fl = true -> cur = O) ->
+    good (sim j) (cont f inp k fl w) (run_tree inp rest cur w rc pc).
 Definition brkspec (j : nat) (k : kont) (E : env) (nf : nat) : Prop :=
-  forall f inp w cur, (nf <= f)%nat ->
-    good (sim j) (exec f inp Break k false w) (run_tree inp (e_brk E) cur w).
+  forall f inp w cur rc pc, (nf <= f)%nat ->
+    good (sim j) (exec f inp Break k false w) (run_tree inp (e_brk E) cur w rc pc).
 Definition cntspec (j : nat) (k : kont) (E : env) (nf : nat) : Prop :=
-  forall f inp w cur, (nf <= f)%nat ->
-    good (sim j) (exec f inp Continue k false w) (run_tree inp (e_cnt E) cur w).
+  forall f inp w cur rc pc, (nf <= f)%nat ->
+    good (sim j) (exec f inp Continue k false w) (run_tree inp (e_cnt E) cur w rc pc).
 
 Definition retspec (j : nat) (k : kont) (E : env) (nf : nat) : Prop :=
-  forall f inp w cur, (nf <= f)%nat ->
-    good (sim j) (exec f inp Return k false w) (run_tree inp (e_ret E) cur w).
+  forall f inp w cur rc pc, (nf <= f)%nat ->
+    good (sim j) (exec f inp Return k false w) (run_tree inp (e_ret E) cur w rc pc).
 
 Definition Full j k rest E nf (il ic : bool) : Prop :=
   fallspec j k rest false nf /\ (il = true -> brkspec j k E nf /\ cntspec j k E nf) /\
@@ -149,13 +153,13 @@ Definition Now j (s : stmt) (first : bool) k rest E nf : Prop :=
   (zret s first = true -> retspec j k E nf).
 
 Lemma fallspec_mono j k rest fl nf : fallspec (S j) k rest fl nf -> fallspec j k rest fl nf.
-Proof. intros H f inp w cur Hf Hc. apply good_mono, H; assumption. Qed.
+Proof. intros H f inp w cur rc pc Hf Hc. apply good_mono, H; assumption. Qed.
 Lemma brkspec_mono j k E nf : brkspec (S j) k E nf -> brkspec j k E nf.
-Proof. intros H f inp w cur Hf. apply good_mono, H; assumption. Qed.
+Proof. intros H f inp w cur rc pc Hf. apply good_mono, H; assumption. Qed.
 Lemma cntspec_mono j k E nf : cntspec (S j) k E nf -> cntspec j k E nf.
-Proof. intros H f inp w cur Hf. apply good_mono, H; assumption. Qed.
+Proof. intros H f inp w cur rc pc Hf. apply good_mono, H; assumption. Qed.
 Lemma retspec_mono j k E nf : retspec (S j) k E nf -> retspec j k E nf.
-Proof. intros H f inp w cur Hf. apply good_mono, H; assumption. Qed.
+Proof. intros H f inp w cur rc pc Hf. apply good_mono, H; assumption. Qed.
 Lemma Full_mono j k rest E nf il ic : Full (S j) k rest E nf il ic -> Full j k rest E nf il ic.
 Proof.
   intros (H1 & H2 & H3). split; [apply fallspec_mono, H1|]. split.
@@ -166,16 +170,16 @@ Lemma Full_Later j k rest E nf il ic : Full j k rest E nf il ic -> Later j k res
 Proof. destruct j as [|j]; [intros _; exact I|]. apply Full_mono. Qed.
 
 (** ** sleeping states *)
-Lemma halted_sim j n : tree_at m n = TStay -> sim j Halted n.
+Lemma halted_sim j n : tree_at m n = TStay -> forall wc, sim j Halted n wc.
 Proof.
-  intros Ht. induction j as [|j IH]; [exact I|].
-  intros inp w. rewrite Ht. cbn. repeat split; [discriminate|exact IH].
+  intros Ht. induction j as [|j IH]; intros wc; [exact I|].
+  intros inp w. rewrite Ht. cbn. repeat split; [discriminate|apply IH].
 Qed.
 
 Lemma poll_sim c k rest E nf il ic n : tree_at m n = TIf c rest TStay -> (nf <= ref_fuel)%nat ->
-  forall j, Later j k rest E nf il ic -> sim j (Polling c k) n.
+  forall j, Later j k rest E nf il ic -> forall wc, sim j (Polling c k) n wc.
 Proof.
-  intros Ht Hn. induction j as [|j IH]; intros HL; [exact I|].
+  intros Ht Hn. induction j as [|j IH]; intros HL wc; [exact I|].
   intros inp w. rewrite Ht. cbn [rclock run_tree].
   destruct (ceval inp (w_v w) c).
   - apply (proj1 HL); [exact Hn|discriminate].
@@ -183,10 +187,26 @@ Proof.
 Qed.
 
 Lemma delay_sim k rest E nf il ic n : tree_at m n = rest -> (nf <= ref_fuel)%nat ->
-  forall j, Later j k rest E nf il ic -> sim j (Delay k) n.
+  forall j, Later j k rest E nf il ic -> forall wc, sim j (Delay k) n wc.
 Proof.
-  intros Ht Hn [|j] HL; [exact I|].
+  intros Ht Hn [|j] HL wc; [exact I|].
   intros inp w. rewrite Ht. cbn [rclock]. apply (proj1 HL); [exact Hn|discriminate].
+Qed.
+
+(** the loop of [wait_for]: [Waiting m k] is the loop-head state with the counter at [m + 1],
+    [Delay k] the same state with the counter at 0 *)
+Lemma wait_sim k rest E nf il ic n : tree_at m n = TIfW (TDecW (TGoto n)) rest -> (nf <= ref_fuel)%nat ->
+  forall j, Later j k rest E nf il ic ->
+    (forall z, (0 <= z)%Z -> sim j (Waiting z k) n (z + 1)) /\ sim j (Delay k) n 0.
+Proof.
+  intros Ht Hn. induction j as [|j IH]; intros HL; [split; [intros; exact I|exact I]|].
+  destruct (IH (Full_Later _ _ _ _ _ _ _ HL)) as [IHw IHd]. split.
+  - intros z Hz inp w. rewrite Ht. cbn [rclock run_tree].
+    destruct (Z.eqb_spec (z + 1) 0) as [He|_]; [lia|].
+    destruct (Z.leb_spec z 0) as [Hle|Hgt].
+    + replace (z + 1 - 1)%Z with 0%Z by lia. repeat split; [discriminate|exact IHd].
+    + replace (z + 1 - 1)%Z with ((z - 1) + 1)%Z by lia. repeat split; [discriminate|]. apply IHw. lia.
+  - intros inp w. rewrite Ht. cbn [rclock run_tree Z.eqb]. apply (proj1 HL); [exact Hn|discriminate].
 Qed.
 
 Definition sub (l : machine) : Prop := forall n t, In (n, t) l -> tree_at m n = t.
@@ -253,47 +273,47 @@ Definition P (s : stmt) : Prop :=
     (first = true -> tree_at m O = ctree s o E first rest) ->
     Now j s first k rest E nf ->
     (fo s first = false -> Later j k rest E nfl il ic) ->
-    forall f inp w cur, (fneed s nf <= f)%nat -> (first = true -> cur = O) ->
-      good (sim j) (exec f inp s k first w) (run_tree inp (ctree s o E first rest) cur w).
+    forall f inp w cur rc pc, (fneed s nf <= f)%nat -> (first = true -> cur = O) ->
+      good (sim j) (exec f inp s k first w) (run_tree inp (ctree s o E first rest) cur w rc pc).
 
 Lemma brk_kseq j b k E nf nf' : brkspec j k E nf -> (nf <= nf')%nat -> brkspec j (KSeq b k) E nf'.
-Proof. intros H Hle f inp w cur Hf. rewrite exec_break_kseq. apply H. lia. Qed.
+Proof. intros H Hle f inp w cur rc pc Hf. rewrite exec_break_kseq. apply H. lia. Qed.
 Lemma cnt_kseq j b k E nf nf' : cntspec j k E nf -> (nf <= nf')%nat -> cntspec j (KSeq b k) E nf'.
-Proof. intros H Hle f inp w cur Hf. rewrite exec_cont_kseq. apply H. lia. Qed.
+Proof. intros H Hle f inp w cur rc pc Hf. rewrite exec_cont_kseq. apply H. lia. Qed.
 Lemma ret_kseq j b k E nf nf' : retspec j k E nf -> (nf <= nf')%nat -> retspec j (KSeq b k) E nf'.
-Proof. intros H Hle f inp w cur Hf. rewrite exec_ret_kseq. apply H. lia. Qed.
+Proof. intros H Hle f inp w cur rc pc Hf. rewrite exec_ret_kseq. apply H. lia. Qed.
 
 Lemma P_skip : P Skip.
 Proof.
-  intros j o E first rest k nf nfl il ic _ _ _ _ HN _ f inp w cur Hf Hcur.
+  intros j o E first rest k nf nfl il ic _ _ _ _ HN _ f inp w cur rc pc Hf Hcur.
   cbn [fneed] in Hf. destruct f as [|f]; [lia|]. cbn [exec ctree].
   apply (proj1 HN); [reflexivity|lia|exact Hcur].
 Qed.
 
 Lemma P_eff e : P (Eff e).
 Proof.
-  intros j o E first rest k nf nfl il ic _ _ _ _ HN _ f inp w cur Hf Hcur.
+  intros j o E first rest k nf nfl il ic _ _ _ _ HN _ f inp w cur rc pc Hf Hcur.
   cbn [fneed] in Hf. destruct f as [|f]; [lia|]. cbn [exec ctree run_tree].
   apply (proj1 HN); [reflexivity|lia|discriminate].
 Qed.
 
 Lemma P_break : P Break.
 Proof.
-  intros j o E first rest k nf nfl il ic _ _ _ _ HN _ f inp w cur Hf Hcur.
+  intros j o E first rest k nf nfl il ic _ _ _ _ HN _ f inp w cur rc pc Hf Hcur.
   cbn [fneed] in Hf. rewrite exec_break_first. cbn [ctree].
   apply (proj1 (proj2 HN)); [reflexivity|lia].
 Qed.
 
 Lemma P_continue : P Continue.
 Proof.
-  intros j o E first rest k nf nfl il ic _ _ _ _ HN _ f inp w cur Hf Hcur.
+  intros j o E first rest k nf nfl il ic _ _ _ _ HN _ f inp w cur rc pc Hf Hcur.
   cbn [fneed] in Hf. rewrite exec_cont_first. cbn [ctree].
   apply (proj1 (proj2 (proj2 HN))); [reflexivity|lia].
 Qed.
 
 Lemma P_return : P Return.
 Proof.
-  intros j o E first rest k nf nfl il ic _ _ _ _ HN _ f inp w cur Hf Hcur.
+  intros j o E first rest k nf nfl il ic _ _ _ _ HN _ f inp w cur rc pc Hf Hcur.
   cbn [fneed] in Hf. rewrite exec_ret_first. cbn [ctree].
   apply (proj2 (proj2 (proj2 HN))); [reflexivity|lia].
 Qed.
@@ -304,14 +324,14 @@ Lemma seq_fall b (Pb : P b) j o E fl rest k nf nfl il ic :
   Now j b fl k rest E nf -> (fo b fl = false -> Later j k rest E nfl il ic) ->
   fallspec j (KSeq b k) (ctree b o E fl rest) fl (S (fneed b nf)).
 Proof.
-  intros Hw Hc Hs H0 HN HL f inp w cur Hf Hcur.
+  intros Hw Hc Hs H0 HN HL f inp w cur rc pc Hf Hcur.
   destruct f as [|f]; [lia|]. cbn [cont].
   apply (Pb j o E fl rest k nf nfl il ic); auto. lia.
 Qed.
 
 Lemma P_seq a b : P a -> P b -> P (Seq a b).
 Proof.
-  intros Pa Pb j o E first rest k nf nfl il ic Hwf Hck Hsub H0 HN HL f inp w cur Hf Hcur.
+  intros Pa Pb j o E first rest k nf nfl il ic Hwf Hck Hsub H0 HN HL f inp w cur rc pc Hf Hcur.
   cbn [wf] in Hwf. apply andb_true_iff in Hwf. destruct Hwf as [Hwa Hwb].
   cbn [fchk] in Hck. apply andb_true_iff in Hck. destruct Hck as [Hca Hcb].
   cbn [cstates] in Hsub. apply sub_app in Hsub. destruct Hsub as [Hsa Hsb].
@@ -356,7 +376,7 @@ Qed.
 
 Lemma P_if c t e : P t -> P e -> P (If c t e).
 Proof.
-  intros Pt Pe j o E first rest k nf nfl il ic Hwf Hck Hsub H0 HN HL f inp w cur Hf Hcur.
+  intros Pt Pe j o E first rest k nf nfl il ic Hwf Hck Hsub H0 HN HL f inp w cur rc pc Hf Hcur.
   cbn [wf] in Hwf. apply andb_true_iff in Hwf. destruct Hwf as [Hwt Hwe].
   cbn [fchk] in Hck. apply andb_true_iff in Hck. destruct Hck as [Hct Hce].
   cbn [cstates] in Hsub. apply sub_app in Hsub. destruct Hsub as [Hst Hse].
@@ -381,7 +401,7 @@ Qed.
 
 Lemma P_call b : P b -> P (Call b).
 Proof.
-  intros Pb j o E first rest k nf nfl il ic Hwf Hck Hsub H0 HN HL f inp w cur Hf Hcur.
+  intros Pb j o E first rest k nf nfl il ic Hwf Hck Hsub H0 HN HL f inp w cur rc pc Hf Hcur.
   cbn [wf fchk cstates Lower.fo] in Hwf, Hck, Hsub, HL.
   destruct HN as (HNf & _ & _ & _). cbn [zfall Lower.fo] in HNf.
   cbn [fneed] in Hf. destruct f as [|f]; [lia|].
@@ -390,24 +410,24 @@ Proof.
   destruct (wf_noloop b _ _ first Hwf) as [Hzb Hzc].
   apply (Pb j (S o) Ec first rest (KCall k) (S nf) (S nfl) false true); auto; [| |lia].
   - split; [|split; [|split]].
-    + intros Hz f' inp' w' cur' Hf' Hc'. destruct f' as [|f']; [lia|]. cbn [cont].
+    + intros Hz f' inp' w' cur' rc' pc' Hf' Hc'. destruct f' as [|f']; [lia|]. cbn [cont].
       apply HNf; [rewrite Hz; reflexivity|lia|exact Hc'].
     + congruence.
     + congruence.
-    + intros Hz f' inp' w' cur' Hf'. destruct f' as [|f']; [lia|]. cbn [exec unwind_call e_ret Ec].
+    + intros Hz f' inp' w' cur' rc' pc' Hf'. destruct f' as [|f']; [lia|]. cbn [exec unwind_call e_ret Ec].
       assert (Hfs : fallspec j k rest (Lower.fo b first) nf) by (apply HNf; rewrite Hz; apply orb_true_r).
       rewrite (zret_fo _ _ Hz) in Hfs. apply Hfs; [lia|discriminate].
   - intros Hfo. specialize (HL Hfo). destruct j as [|j']; [exact I|]. cbn in HL. destruct HL as (HLf & _ & _).
     split; [|split].
-    + intros f' inp' w' cur' Hf' Hc'. destruct f' as [|f']; [lia|]. cbn [cont]. apply HLf; [lia|exact Hc'].
+    + intros f' inp' w' cur' rc' pc' Hf' Hc'. destruct f' as [|f']; [lia|]. cbn [cont]. apply HLf; [lia|exact Hc'].
     + discriminate.
-    + intros _ f' inp' w' cur' Hf'. destruct f' as [|f']; [lia|]. cbn [exec unwind_call e_ret Ec].
+    + intros _ f' inp' w' cur' rc' pc' Hf'. destruct f' as [|f']; [lia|]. cbn [exec unwind_call e_ret Ec].
       apply HLf; [lia|discriminate].
 Qed.
 
 Lemma P_await c : P (Await c).
 Proof.
-  intros j o E first rest k nf nfl il ic _ Hck Hsub H0 HN HL f inp w cur Hf Hcur.
+  intros j o E first rest k nf nfl il ic _ Hck Hsub H0 HN HL f inp w cur rc pc Hf Hcur.
   cbn [fneed] in Hf. destruct f as [|f]; [lia|].
   destruct HN as (HNf & _ & _).
   assert (Hn : (nfl <= ref_fuel)%nat) by (destruct c; apply Nat.leb_le, Hck).
@@ -427,7 +447,7 @@ Qed.
 
 Lemma P_whilefalse b : P (WhileFalse b).
 Proof.
-  intros j o E first rest k nf nfl il ic _ Hck Hsub H0 HN HL f inp w cur Hf Hcur.
+  intros j o E first rest k nf nfl il ic _ Hck Hsub H0 HN HL f inp w cur rc pc Hf Hcur.
   cbn [fneed] in Hf. destruct f as [|f]; [lia|].
   destruct HN as (HNf & _ & _).
   assert (Hn : (nfl <= ref_fuel)%nat) by (apply Nat.leb_le, Hck).
@@ -435,6 +455,26 @@ Proof.
   - apply (HNf eq_refl); [lia|exact Hcur].
   - repeat split; [discriminate|]. cbn [fst].
     apply (delay_sim p m k rest E nfl il ic o (Hsub _ _ (or_introl eq_refl)) Hn j (HL eq_refl)).
+Qed.
+
+Lemma P_wait n : P (Wait n).
+Proof.
+  intros j o E first rest k nf nfl il ic Hwf Hck Hsub H0 HN HL f inp w cur rc pc Hf Hcur.
+  cbn [fneed] in Hf. destruct f as [|f]; [lia|].
+  destruct HN as (HNf & _ & _ & _).
+  assert (Hn : (nfl <= ref_fuel)%nat) by (apply Nat.leb_le, Hck).
+  cbn [wf] in Hwf. apply andb_true_iff in Hwf. destruct Hwf as [Hn1 Hnf]. apply Z.leb_le in Hn1.
+  cbn [exec ctree cstates zfall Lower.fo] in *.
+  destruct (n =? 1)%Z eqn:En; rewrite ?En in Hsub, HL, Hnf.
+  - (* n = 1: await true, not in first position *)
+    apply Z.eqb_eq in En. subst n. destruct first; [discriminate|]. cbn [Z.leb Z.compare Pos.compare Pos.compare_cont].
+    repeat split; [discriminate|]. cbn [fst snd].
+    apply (delay_sim p m k rest E nfl il ic o (Hsub _ _ (or_introl eq_refl)) Hn j (HL eq_refl)).
+  - (* n >= 2: counter <= n - 1, then the loop-head state *)
+    apply Z.eqb_neq in En. destruct (Z.leb_spec n 1) as [Hle|_]; [lia|]. cbn [run_tree].
+    repeat split; [discriminate|]. cbn [fst snd].
+    replace (n - 1)%Z with ((n - 2) + 1)%Z by lia.
+    apply (proj1 (wait_sim p m k rest E nfl il ic o (Hsub _ _ (or_introl eq_refl)) Hn j (HL eq_refl))). lia.
 Qed.
 
 End Exec.
@@ -461,25 +501,25 @@ Hypothesis Hsb : sub m (cstates b (S o) E' false (TGoto h)).
 (** the loop-head code: test, then body or exit - run with fuel [f] from any state *)
 Lemma body_run j nf0 nl :
   fchk b nl = true ->
-  sim j (LoopHead c b k) h -> Later j (KLoop c b k) (TGoto h) E' nl true ic ->
+  (forall wc, sim j (LoopHead c b k) h wc) -> Later j (KLoop c b k) (TGoto h) E' nl true ic ->
   fallspec j k rest false nf0 ->
   (zret b false = true -> retspec j k E nf0) ->
-  forall f inp w cur, (fneed b (S nf0) <= f)%nat -> (nf0 <= f)%nat ->
+  forall f inp w cur rc pc, (fneed b (S nf0) <= f)%nat -> (nf0 <= f)%nat ->
     good (sim j) (if oceval inp (w_v w) c then exec f inp b (KLoop c b k) false w else cont f inp k false w)
-         (run_tree inp hd cur w).
+         (run_tree inp hd cur w rc pc).
 Proof.
-  intros Hck Hs HLk Hfk Hrk f inp w cur Hf1 Hf2.
+  intros Hck Hs HLk Hfk Hrk f inp w cur rc pc Hf1 Hf2.
   assert (Hbody : good (sim j) (exec f inp b (KLoop c b k) false w)
-                       (run_tree inp (ctree b (S o) {| e_brk := rest; e_cnt := TStay; e_ret := e_ret E |} false (TGoto h)) cur w)).
+                       (run_tree inp (ctree b (S o) {| e_brk := rest; e_cnt := TStay; e_ret := e_ret E |} false (TGoto h)) cur w rc pc)).
   { rewrite (ctree_indep b (S o) _ E' false (TGoto h) (TGoto h)); [|reflexivity|reflexivity|congruence|reflexivity].
     assert (HNow : Now p m j b false (KLoop c b k) (TGoto h) E' (S nf0)).
     { split; [|split; [|split]].
-      + intros _ f' inp' w' cur' Hf' _. destruct f' as [|f']; [lia|]. cbn [cont].
-        repeat split; [discriminate|exact Hs].
-      + intros _ f' inp' w' cur' Hf'. destruct f' as [|f']; [lia|]. cbn [exec unwind_loop e_brk E'].
+      + intros _ f' inp' w' cur' rc' pc' Hf' _. destruct f' as [|f']; [lia|]. cbn [cont].
+        repeat split; [discriminate|apply Hs].
+      + intros _ f' inp' w' cur' rc' pc' Hf'. destruct f' as [|f']; [lia|]. cbn [exec unwind_loop e_brk E'].
         apply Hfk; [lia|discriminate].
       + congruence.
-      + intros Hz f' inp' w' cur' Hf'. rewrite exec_ret_kloop. cbn [e_ret E']. apply (Hrk Hz). lia. }
+      + intros Hz f' inp' w' cur' rc' pc' Hf'. rewrite exec_ret_kloop. cbn [e_ret E']. apply (Hrk Hz). lia. }
     apply (Pb j (S o) E' false (TGoto h) (KLoop c b k) (S nf0) nl true ic); auto; discriminate. }
   unfold hd, whead. destruct c as [|c0]; cbn [oceval run_tree].
   - exact Hbody.
@@ -490,32 +530,32 @@ Lemma loop_ok nfl il :
   let nl := S (S (fneed b (S nfl))) in
   fchk b nl = true -> (fneed b (S nfl) <= ref_fuel)%nat -> (nfl <= ref_fuel)%nat ->
   forall j, Later j k rest E nfl il ic ->
-    sim j (LoopHead c b k) h /\ Later j (KLoop c b k) (TGoto h) E' nl true ic.
+    (forall wc, sim j (LoopHead c b k) h wc) /\ Later j (KLoop c b k) (TGoto h) E' nl true ic.
 Proof.
-  intros nl Hck Hr1 Hr2. induction j as [|j IH]; intros HL; [split; exact I|].
+  intros nl Hck Hr1 Hr2. induction j as [|j IH]; intros HL; [split; [intros; exact I|exact I]|].
   cbn [Lower.fo] in *. destruct (IH (Full_Later p m _ _ _ _ _ _ _ HL)) as [Hs HLk].
   destruct HL as (HLf & HLbc & HLr).
   assert (Hrk : zret b false = true -> retspec j k E nfl).
   { intros Hz. destruct ic; [exact (HLr eq_refl)|]. pose proof (wf_nocall b _ _ false Hwb). congruence. }
-  assert (Hs' : sim (S j) (LoopHead c b k) h).
-  { intros inp w. rewrite Hh. cbn [rclock].
+  assert (Hs' : forall wc, sim (S j) (LoopHead c b k) h wc).
+  { intros wc inp w. rewrite Hh. cbn [rclock].
     apply (body_run j nfl nl Hck Hs HLk HLf Hrk); assumption. }
   pose proof (fneed_ge b (S nfl)) as Hge.
   split; [exact Hs'|]. cbn [LowerProofs.Later]. split; [|split].
-  - intros f inp w cur Hf _. destruct f as [|f]; [unfold nl in Hf; lia|]. cbn [cont].
-    repeat split; [discriminate|exact Hs].
+  - intros f inp w cur rc pc Hf _. destruct f as [|f]; [unfold nl in Hf; lia|]. cbn [cont].
+    repeat split; [discriminate|apply Hs].
   - intros _. split.
-    + intros f inp w cur Hf. destruct f as [|f]; [unfold nl in Hf; lia|]. cbn [exec unwind_loop e_brk E'].
+    + intros f inp w cur rc pc Hf. destruct f as [|f]; [unfold nl in Hf; lia|]. cbn [exec unwind_loop e_brk E'].
       apply HLf; [unfold nl in Hf; lia|discriminate].
-    + intros f inp w cur Hf. destruct f as [|f]; [unfold nl in Hf; lia|]. cbn [exec unwind_loop e_cnt E'].
+    + intros f inp w cur rc pc Hf. destruct f as [|f]; [unfold nl in Hf; lia|]. cbn [exec unwind_loop e_cnt E'].
       apply (body_run j nfl nl Hck Hs HLk HLf Hrk); unfold nl in Hf; lia.
-  - intros Hic f inp w cur Hf. rewrite exec_ret_kloop. cbn [e_ret E']. apply (HLr Hic). unfold nl in Hf. lia.
+  - intros Hic f inp w cur rc pc Hf. rewrite exec_ret_kloop. cbn [e_ret E']. apply (HLr Hic). unfold nl in Hf. lia.
 Qed.
 End Loop.
 
 Lemma P_while p m c b : P p m b -> P p m (While c b).
 Proof.
-  intros Pb j o E first rest k nf nfl il ic Hwf Hck Hsub H0 HN HL f inp w cur Hf Hcur.
+  intros Pb j o E first rest k nf nfl il ic Hwf Hck Hsub H0 HN HL f inp w cur rc pc Hf Hcur.
   cbn [wf] in Hwf. apply andb_true_iff in Hwf. destruct Hwf as [Hwb Hzc]. apply negb_true_iff in Hzc.
   cbn [fchk] in Hck. apply andb_true_iff in Hck. destruct Hck as [Hck Hcb].
   apply andb_true_iff in Hck. destruct Hck as [Hr1 Hr2]. apply Nat.leb_le in Hr1, Hr2.
@@ -531,7 +571,7 @@ Proof.
     apply (body_run p m c b o O rest k E ic Pb Hwb Hzc Hh Hsb j nf _ Hcb Hs HLk HNf HNr); lia.
   - assert (Hh : tree_at m o = whead c b o o rest (e_ret E)) by exact (Hsh _ _ (or_introl eq_refl)).
     destruct (loop_ok p m c b o o rest k E ic Pb Hwb Hzc Hh Hsb nfl il Hcb Hr1 Hr2 j HL) as [Hs HLk].
-    cbn [exec ctree run_tree]. repeat split; [discriminate|exact Hs].
+    cbn [exec ctree run_tree]. repeat split; [discriminate|apply Hs].
 Qed.
 
 Theorem all_P p m : forall s, P p m s.
@@ -548,7 +588,7 @@ Proof.
   - apply P_continue.
   - apply P_return.
   - apply P_call; assumption.
-  - intros j o E first rest k nf nfl il ic H; discriminate.
+  - apply P_wait.
   - intros j o E first rest k nf nfl il ic H; discriminate.
 Qed.
 
@@ -569,6 +609,7 @@ Proof.
   - destruct f; [contradiction|]. destruct H as [H|[]]. injection H as <- _. cbn [size]. lia.
   - destruct c; destruct f; try contradiction; destruct H as [H|[]]; injection H as <- _; cbn [size]; lia.
   - apply IHb0 in H. cbn [size]. lia.
+  - destruct (n =? 1)%Z; [destruct f; [contradiction|]|]; destruct H as [H|[]]; injection H as <- _; cbn [size]; lia.
 Qed.
 
 Definition names_in (l : machine) (lo hi : nat) : Prop := forall n t, In (n, t) l -> (lo <= n < hi)%nat.
@@ -620,6 +661,8 @@ Proof.
   - destruct c; destruct f; intros x tx H; try contradiction; destruct H as [H|[]]; injection H as <- <-; cbn;
       rewrite Nat.eqb_refl; reflexivity.
   - apply IHb0.
+  - destruct (n =? 1)%Z; [destruct f|]; intros x tx H; try contradiction; destruct H as [H|[]]; injection H as <- <-; cbn;
+      rewrite Nat.eqb_refl; reflexivity.
 Qed.
 
 Lemma lower_sub p : sub (lower p) (cstates p 1 env0 true (TGoto O)).
@@ -630,60 +673,59 @@ Proof.
 Qed.
 
 (** ** the theorem *)
-Lemma sim_start p : in_grammar p = true -> forall j, sim p (lower p) j AtStart O.
+Lemma sim_start p : in_grammar p = true -> forall j wc, sim p (lower p) j AtStart O wc.
 Proof.
   intros Hg. unfold in_grammar in Hg. apply andb_true_iff in Hg. destruct Hg as [Hg Hfuel].
   apply andb_true_iff in Hg. destruct Hg as [Hwf Hck]. apply Nat.leb_le in Hfuel.
-  induction j as [|j IH]; [exact I|].
+  induction j as [|j IH]; intros wc; [exact I|].
   intros inp w. cbn [rclock]. change (tree_at (lower p) O) with (ctree p 1 env0 true (TGoto O)).
   apply (all_P p (lower p) p j 1%nat env0 true (TGoto O) KStop 1%nat 1%nat false false); auto.
   - apply lower_sub.
   - destruct (wf_noloop p _ _ true Hwf) as [Hb Hc]. pose proof (wf_nocall p _ _ true Hwf) as Hr.
     split; [|split; [|split]]; [|congruence|congruence|congruence].
-    intros _ f inp' w' cur Hf _. destruct f as [|f]; [lia|]. cbn [cont]. repeat split; [discriminate|exact IH].
+    intros _ f inp' w' cur rc pc Hf _. destruct f as [|f]; [lia|]. cbn [cont]. repeat split; [discriminate|apply IH].
   - intros _. destruct j as [|j]; [exact I|]. split; [|split; discriminate].
-    intros f inp' w' cur Hf _. destruct f as [|f]; [lia|]. cbn [cont]. repeat split; [discriminate|].
-    apply sim_mono. exact IH.
+    intros f inp' w' cur rc pc Hf _. destruct f as [|f]; [lia|]. cbn [cont]. repeat split; [discriminate|].
+    apply sim_mono. apply IH.
 Qed.
 
-Lemma trace_sim p m : forall ins c n w, sim p m (length ins) c n ->
-  traceB (mstepZ m) [Z.of_nat n; w_v w; w_cnt w; w_mark w] ins = traceB (ref_step p) (rpack (c, w)) ins.
+Lemma trace_sim p m : forall ins c n w wc, sim p m (length ins) c n wc ->
+  traceB (mstepZ m) [Z.of_nat n; w_v w; w_cnt w; w_mark w; wc] ins = traceB (ref_step p) (rpack (c, w)) ins.
 Proof.
-  induction ins as [|i r IH]; intros c n w Hs; [reflexivity|].
+  induction ins as [|i r IH]; intros c n w wc Hs; [reflexivity|].
   cbn [traceB length] in *. unfold ref_step at 1. rewrite clock_rclock.
   unfold mstepZ at 1. unfold mclock. cbn [fst snd rpack r_ctrl]. rewrite Nat2Z.id.
   replace (rwork (rpack (c, w))) with w by (destruct w; reflexivity).
   replace {| w_v := w_v w; w_cnt := w_cnt w; w_mark := w_mark w |} with w by (destruct w; reflexivity).
   specialize (Hs (in_bits i) w). destruct Hs as (H1 & H2 & H3).
   destruct (rclock p c (in_bits i) w) as [c' w'] eqn:Er.
-  destruct (run_tree (in_bits i) (tree_at m n) n w) as [n' w''] eqn:Em.
+  destruct (run_tree (in_bits i) (tree_at m n) n w wc wc) as [[n' w''] wc'] eqn:Em.
   cbn [fst snd] in H1, H2, H3 |- *. subst w''. cbn [r_ctrl r_cnt r_mark rpack fst snd].
   f_equal.
   - unfold mobs. destruct c'; try reflexivity. congruence.
-  - apply (IH c' n' w'). exact H3.
+  - apply (IH c' n' w' wc'). exact H3.
 Qed.
 
 Theorem lower_correct p : in_grammar p = true ->
   forall ins, traceB (mstepZ (lower p)) minitZ ins = traceB (ref_step p) rinit ins.
 Proof.
   intros Hg ins.
-  exact (trace_sim p (lower p) ins AtStart O work0 (sim_start p Hg (length ins))).
+  exact (trace_sim p (lower p) ins AtStart O work0 0%Z (sim_start p Hg (length ins) 0%Z)).
 Qed.
 
 (** the same for the machine over its own state type *)
-Lemma mstep_mstepZ m : forall ins n w,
-  traceB (mstep m) (n, w) ins = traceB (mstepZ m) [Z.of_nat n; w_v w; w_cnt w; w_mark w] ins.
+Lemma mstep_mstepZ m : forall ins n w wc,
+  traceB (mstep m) (n, w, wc) ins = traceB (mstepZ m) [Z.of_nat n; w_v w; w_cnt w; w_mark w; wc] ins.
 Proof.
-  induction ins as [|i r IH]; intros n w; [reflexivity|].
+  induction ins as [|i r IH]; intros n w wc; [reflexivity|].
   cbn [traceB]. unfold mstep at 1, mstepZ at 1. rewrite Nat2Z.id.
   replace {| w_v := w_v w; w_cnt := w_cnt w; w_mark := w_mark w |} with w by (destruct w; reflexivity).
-  destruct (mclock m (n, w) (in_bits i)) as [n' w'] eqn:E. cbn [fst snd]. f_equal. apply IH.
+  destruct (mclock m (n, w, wc) (in_bits i)) as [[n' w'] wc'] eqn:E. cbn [fst snd]. f_equal. apply IH.
 Qed.
 
 Theorem lower_correct_mstep p : in_grammar p = true ->
   forall ins, traceB (mstep (lower p)) minit ins = traceB (ref_step p) rinit ins.
 Proof. intros Hg ins. unfold minit. rewrite mstep_mstepZ. exact (lower_correct p Hg ins). Qed.
-
 
 (** ** non-vacuity: a program of the grammar with nested loops, awaits, break and continue *)
 Definition ex_prog : stmt :=
@@ -698,3 +740,26 @@ Definition ex_prog : stmt :=
 
 Lemma ex_prog_ok : in_grammar ex_prog = true /\ Nat.leb 3 (length (lower ex_prog)) = true.
 Proof. split; vm_compute; reflexivity. Qed.
+
+(** ** wait_for *)
+(** every constant duration n >= 1 in non-first position is in the grammar *)
+Lemma wait_prog_in_grammar n : (1 <= n)%Z -> in_grammar (Seq (Eff 1) (Seq (Wait n) (Eff 2))) = true.
+Proof.
+  intros H. assert (Hn : (1 <=? n)%Z = true) by (apply Z.leb_le; exact H).
+  unfold in_grammar. cbn [wf Lower.fo]. rewrite Hn, andb_false_r. reflexivity.
+Qed.
+
+Corollary wait_exact n : (1 <= n)%Z ->
+  forall ins, traceB (mstepZ (lower (Seq (Eff 1) (Seq (Wait n) (Eff 2))))) minitZ ins
+            = traceB (ref_step (Seq (Eff 1) (Seq (Wait n) (Eff 2)))) rinit ins.
+Proof. intros H. apply lower_correct, wait_prog_in_grammar, H. Qed.
+
+(** wait_for(1) as the very first action of the process (excluded by [wf]): the code - and the model -
+    resume in the same clock ([await true] costs nothing in first position), [Coro.exec] one clock later *)
+Definition wait1_first : stmt := Seq (Wait 1) (Eff 1).
+Lemma lower_wait1_first_refuted :
+  in_grammar wait1_first = false /\
+  exists ins, traceB (mstepZ (lower wait1_first)) minitZ ins <> traceB (ref_step wait1_first) rinit ins.
+Proof.
+  split; [reflexivity|]. exists [[VL false; VL false]]. vm_compute. intros H. discriminate H.
+Qed.
